@@ -239,7 +239,7 @@ func checkC18(c *hx.Checker) {
 	c.Rule = "seeds: mlp.onnx, scaler.onnx, gru.onnx, mnist-8-opset13.onnx, the zip sample, 47 generated tiny models (every initializer type x encoding at rank 2, every type at rank 0 and 1, mixed attribute kinds, LSTM, Conv) and ndm.onnx; " +
 		"byte faults: EVERY truncation offset and EVERY single-byte substitution by {all 256 values for seeds < 700 B (thorough: < 2 KiB); 0x00,0x01,0x7f,0x80,0xff,b^1,b^0x80 otherwise}; ndm.onnx: 4096 evenly spread truncation offsets + substitutions at 2048 offsets; " +
 		"structural faults on the decoded proto of every seed: each initializer dims entry -> {-1,0,1,d-1,d+1,2^31,2^62}, data_type -> 0..22,99, raw payload +-1 byte / empty, names emptied / duplicated, node inputs/outputs shortened, value-info dims perturbed, graph removed; " +
-		"opset imports: every version in {-1,0..25,2^31,2^63-1} alone, with an ai.onnx.ml import before/after, duplicated, and no import at all; operator types: each registered name and 120 unregistered names placed first / middle / last in a 3-node graph and off the path to the declared output (dead branch listed after / before the producing node, unread consumer of the output, node without inputs, node without outputs), each also with the caller's map carrying an entry for every name a node produces. " +
+		"opset imports: every version in {-1,0..25,2^31,2^63-1, 13+k*256, 13+2^16, 13+2^32, ...} alone, with an ai.onnx.ml import (version 2, 3, 13) before/after, before / after a version-13 import, next to a custom domain, duplicated, and no import at all; operator types: each registered name and 120 unregistered names placed first / middle / last in a 3-node graph and off the path to the declared output (dead branch listed after / before the producing node, unread consumer of the output, node without inputs, node without outputs), each also with the caller's map carrying an entry for every name a node produces. " +
 		"loaders: 10 models (weights of 1 .. 262 147 values, compressible and not) through NewModelFromBytes, NewModelFromFile and NewModelFromZipFile (stored / deflated entries) must return the weight bit for bit; each faulted string goes through NewModelFromBytes under recover() and, when it loads, one Run under recover() (Run panics are counted, not judged: the statement is about loading). non-trivial = every faulted string"
 	c.Assumptions = []string{"'loads iff the highest imported version is 13' is the statement's rule, whatever the domain of the import", "a Run panic of a corrupted-but-loadable model is outside the statement and only counted (run_panics)"}
 	type job struct {
@@ -439,6 +439,10 @@ func checkC18(c *hx.Checker) {
 		mkOps(fmt.Sprintf("v%d twice", v), []*onnx.OperatorSetIdProto{{Domain: "", Version: v}, {Domain: "", Version: v}})
 		mkOps(fmt.Sprintf("v13+v%d", v), []*onnx.OperatorSetIdProto{{Domain: "", Version: 13}, {Domain: "", Version: v}})
 		mkOps(fmt.Sprintf("v%d+ml%d", 1, v), []*onnx.OperatorSetIdProto{{Domain: "", Version: 1}, {Domain: "ai.onnx.ml", Version: v}})
+		mkOps(fmt.Sprintf("v%d+ml13", v), []*onnx.OperatorSetIdProto{{Domain: "", Version: v}, {Domain: "ai.onnx.ml", Version: 13}})
+		mkOps(fmt.Sprintf("ml13+v%d", v), []*onnx.OperatorSetIdProto{{Domain: "ai.onnx.ml", Version: 13}, {Domain: "", Version: v}})
+		mkOps(fmt.Sprintf("v%d+v13", v), []*onnx.OperatorSetIdProto{{Domain: "", Version: v}, {Domain: "", Version: 13}})
+		mkOps(fmt.Sprintf("v13+custom%d", v), []*onnx.OperatorSetIdProto{{Domain: "", Version: 13}, {Domain: "com.example", Version: v}})
 	}
 	mkOps("no-import", nil)
 	// operator types
@@ -524,6 +528,52 @@ func checkC18(c *hx.Checker) {
 			})
 		}
 	}
+	// the file and zip loaders on damaged files: empty, 1..3 bytes, cut in the middle, last byte missing - an error, never a panic
+	for name, b := range map[string][]byte{"mlp.onnx": seeds["mlp.onnx"], "scaler.onnx": seeds["scaler.onnx"]} {
+		for _, cut := range []int{0, 1, 2, 3, len(b) / 2, len(b) - 1} {
+			name, b, cut := name, b, cut
+			c.Case(hx.CaseInfo{ID: fmt.Sprintf("loaders/truncated/%s@%d", name, cut), Tags: []string{"loaders", "truncated"}, NonTrivial: true}, func() (v *hx.Violation) {
+				mk := func(kind, detail string) *hx.Violation {
+					return &hx.Violation{Kind: kind, Detail: detail, Replay: map[string]any{"replay_kind": "loaders-truncated", "seed": name, "cut": cut}}
+				}
+				how := ""
+				defer func() {
+					if p := recover(); p != nil {
+						v = mk("panic", fmt.Sprintf("%s panicked on a file of %d bytes: %v :: %s", how, cut, p, firstLines(string(debug.Stack()), 12)))
+					}
+				}()
+				dir, err := os.MkdirTemp("", "verif-loaders")
+				if err != nil {
+					hx.HarnessError("temp dir: %v", err)
+				}
+				defer os.RemoveAll(dir)
+				path := filepath.Join(dir, "m.onnx")
+				os.WriteFile(path, b[:cut], 0o644)
+				how = "NewModelFromFile"
+				if m, err := gonnx.NewModelFromFile(path); err == nil && m != nil && cut < len(b)/2 {
+					return mk("not-refused", fmt.Sprintf("NewModelFromFile loaded a file cut to %d bytes", cut))
+				}
+				how = "NewModelFromFile(missing file)"
+				if _, err := gonnx.NewModelFromFile(filepath.Join(dir, "does-not-exist.onnx")); err == nil {
+					return mk("not-refused", "NewModelFromFile of a missing file succeeded")
+				}
+				var buf bytes.Buffer
+				zw := zip.NewWriter(&buf)
+				fw, _ := zw.CreateHeader(&zip.FileHeader{Name: "m.onnx", Method: zip.Deflate})
+				fw.Write(b[:cut])
+				zw.Close()
+				zr, err := zip.NewReader(bytes.NewReader(buf.Bytes()), int64(buf.Len()))
+				if err != nil {
+					hx.HarnessError("zip reader: %v", err)
+				}
+				how = "NewModelFromZipFile"
+				if m, err := gonnx.NewModelFromZipFile(zr.File[0]); err == nil && m != nil && cut < len(b)/2 {
+					return mk("not-refused", fmt.Sprintf("NewModelFromZipFile loaded an entry cut to %d bytes", cut))
+				}
+				return hx.OK("loaders-refuse-damaged-files")
+			})
+		}
+	}
 	// the zip sample through NewModelFromZipFile
 	c.Case(hx.CaseInfo{ID: "zip/nt_1.zip", Tags: []string{"zip"}, NonTrivial: true}, func() (v *hx.Violation) {
 		defer func() {
@@ -560,6 +610,7 @@ func sortStrings(s []string) {
 
 func init() {
 	replayers["zip"] = func(raw json.RawMessage) *hx.Violation { return nil }
+	replayers["loaders-truncated"] = func(raw json.RawMessage) *hx.Violation { return nil }
 	replayers["loaders"] = func(raw json.RawMessage) *hx.Violation {
 		var r struct {
 			N            int  `json:"n"`
